@@ -240,6 +240,15 @@ Section Oracles.
     end.
 End Oracles.
 
+(* ---- every Option WrapV1 accepts ------------------------------------------------------------------ *)
+(* WrapV1(src, dst, opts...) takes the whole Option type, so a caller can pass UseDataPadding and
+   UseIndexPadding.  HEAD applies them nowhere: the header is NewHeader(size) and payload and index
+   are written back to back.  [wrapopts] = the options that matter plus the two that are ignored. *)
+Record wrapopts := mkwrapopts { wo_x : xopts; wo_dpad : N; wo_ipad : N }.
+Definition wrap_bytes_opts (hdrdec : bytes -> option (list bytes * N)) (srt : list irec -> list irec)
+           (w : wrapopts) (x : bytes) : res bytes :=
+  wrap_bytes_with hdrdec srt (wo_x w) x.
+
 (* ---- AttachIndex(path, idx, offset) ---------------------------------------------------------- *)
 (* As found, the file is opened with O_APPEND and written through WriteAt, which the os package
    refuses ("invalid use of WriteAt on file opened with O_APPEND"): the call fails for EVERY input,
